@@ -2,7 +2,7 @@ SPECIFICATION GSpec
 CONSTANTS
   Kinds = {"d", "ad", "r", "adc"}
   MaxLen = 2
-  FaultModes = {"ew", "we"}
+  FaultModes = {"ew"}
   Depth = 14
   MaxStarts = 2
   MaxRefused = 0
